@@ -227,6 +227,15 @@ class FakeWriter:
         self.world = world
 
     def write(self, s):
+        room = self.world.pending_enospc
+        if room is not None and len(self.buf) + len(s) > room:
+            # disk full part-way through the write: what fitted stays in the file, the call fails
+            self.buf += s[: max(0, room - len(self.buf))]
+            self.world.pending_enospc = None
+            self.world.tr.fault("disk_full")
+            self.world.torn_files.add(self.name)
+            self.fs.files[self.name] = self.buf
+            raise OSError(28, "No space left on device (simulated)")
         self.buf += s
         return len(s)
 
@@ -261,6 +270,7 @@ class World:
         self.by_id = {t["id"]: t for t in self.db}
         self.fs = FakeFS(self)
         self.pending_torn = None
+        self.pending_enospc = None
         self.torn_files = set()
         self.next_resp = None
         self.served = []  # (txid, bytes or exception name)
@@ -576,9 +586,30 @@ def _execute(plan, w, tr):
                 else:
                     fail("F1", "lazy_wrong_data", f"lazy {st.get('what', 'value')} look-up of output {vout} of {ent['id'][:16]}.. returned {val!r:.80}, the genuine transaction says {exp!r:.80} (server behaviour: {kind})")
             w.check_cache("after lazy look-up")
+        elif op == "bitrot":
+            # a stored character of the cache file changes on disk (hex digit -> another hex digit keeps the file well-formed JSON)
+            name = st.get("file", "tx.cache")
+            data = w.fs.files.get(name)
+            if not data:
+                continue
+            pos = st["pos"] % len(data)
+            # prefer a position inside a hex string: search forward for a hex digit
+            for off in range(len(data)):
+                q = (pos + off) % len(data)
+                if data[q] in "0123456789abcdef":
+                    pos = q
+                    break
+            old_c = data[pos]
+            new_c = "0123456789abcdef"[(("0123456789abcdef".index(old_c) if old_c in "0123456789abcdef" else 0) + 1 + st["c"] % 15) % 16]
+            w.fs.files[name] = data[:pos] + new_c + data[pos + 1 :]
+            w.torn_files.add(name)
+            tr.fault("stored_byte_flipped")
+            tr.ev("disk", "bitrot", f"{pos}|{old_c}>{new_c}")
         elif op == "dump":
             if st.get("torn") is not None:
                 w.pending_torn = st["torn"]
+            if st.get("enospc") is not None:
+                w.pending_enospc = st["enospc"]
             try:
                 TxFetcher.dump_cache(st.get("file", "tx.cache"))
                 out = "ok"
@@ -587,10 +618,13 @@ def _execute(plan, w, tr):
             except Exception as e:
                 out = "raised:" + type(e).__name__
                 w.pending_torn = None
+                w.pending_enospc = None
                 # a cached transaction that cannot be serialised (non-canonical/75-byte-push cases are judged at fetch time)
             if out != "ok":
                 w.torn_files.add(st.get("file", "tx.cache"))  # dump did not complete: the file is not an intact dump
             tr.ev("client", "dump", f"{len(TxFetcher.cache)}|{out}")
+            w.pending_enospc = None
+            w.check_cache("after dump_cache")
             outcomes.append(out)
         elif op == "restart":
             TxFetcher.cache = {}
@@ -832,7 +866,11 @@ def generate(ch, tier, prop):
             st = {"op": "dump"}
             if disk and ch.chance(0.5):
                 st["torn"] = ch.randrange(0, 100000)
+            elif disk and ch.chance(0.3):
+                st["enospc"] = ch.choice([0, 1, 2, 50, 200, 1000, ch.randrange(0, 3000)])
             steps.append(st)
+            if disk and ch.chance(0.4):
+                steps.append({"op": "bitrot", "pos": ch.randrange(0, 100000), "c": ch.randrange(15)})
             if ch.chance(0.7):
                 steps.append({"op": "restart"})
                 steps.append({"op": "load"})
@@ -870,6 +908,12 @@ def enumerate_plans(tier, prop, seed):
         yield {"db": base_db, "steps": [{"op": "fetch", "tx": 0}, {"op": "fetch", "tx": 1}, {"op": "dump", "torn": cut}, {"op": "restart"}, {"op": "load"}, {"op": "fetch", "tx": 0}], "enum": "torn"}
 
 
+    # a stored character flipped at every 3rd (thorough: every) position of a two-transaction dump, then restart, load, fetch from cache
+    for pos in range(0, 900, 3 if tier == "quick" else 1):
+        yield {"db": base_db, "steps": [{"op": "fetch", "tx": 0}, {"op": "fetch", "tx": 1}, {"op": "dump"}, {"op": "bitrot", "pos": pos, "c": pos % 15}, {"op": "restart"}, {"op": "load"}, {"op": "fetch", "tx": 0}, {"op": "fetch", "tx": 1},
+                                        {"op": "lazy", "tx": 0, "vout": 0, "what": "value"}], "enum": "bitrot"}
+    for room in range(0, 400, 9 if tier == "quick" else 1):
+        yield {"db": base_db, "steps": [{"op": "fetch", "tx": 0}, {"op": "fetch", "tx": 1}, {"op": "dump", "enospc": room}, {"op": "fetch", "tx": 0}, {"op": "restart"}, {"op": "load"}, {"op": "fetch", "tx": 1}], "enum": "enospc"}
     # object histories: every template output x witness shape x read-only use, parsed and API-built
     tdb = {"seed": 777 + seed, "n": 3, "tpl": True}
     for vout in range(5):
